@@ -44,6 +44,7 @@ type Park struct {
 }
 
 type report struct {
+	at      time.Duration // simulated time at the reporting goroutine
 	park    *Park
 	ev      *Event
 	retract *Park // a previously reported park that is no longer waiting (its goroutine woke by itself)
@@ -104,7 +105,7 @@ func (c *Ctl) Yield(kind, key string, data interface{}) (*Park, Action) {
 		return nil, Action{Kind: "abort"}
 	}
 	p := &Park{Kind: kind, Key: key, Data: data, resume: make(chan Action, 1)}
-	c.reports <- report{park: p}
+	c.reports <- report{park: p, at: c.Now()}
 	return p, <-p.resume
 }
 
@@ -115,30 +116,34 @@ func (c *Ctl) YieldOr(kind, key string, data interface{}, done <-chan struct{}) 
 		return Action{Kind: "abort"}, true
 	}
 	p := &Park{Kind: kind, Key: key, Data: data, resume: make(chan Action, 1)}
-	c.reports <- report{park: p}
+	c.reports <- report{park: p, at: c.Now()}
 	select {
 	case a := <-p.resume:
 		return a, true
 	case <-done:
-		c.reports <- report{retract: p}
+		c.reports <- report{retract: p, at: c.Now()}
 		return Action{}, false
 	}
 }
 
 func (c *Ctl) Note(kind, subject, detail string) {
-	c.reports <- report{ev: &Event{Kind: kind, Subject: subject, Detail: detail}}
+	c.reports <- report{ev: &Event{Kind: kind, Subject: subject, Detail: detail}, at: c.Now()}
 }
 
 func (c *Ctl) NoteData(kind, subject, detail string, data interface{}) {
-	c.reports <- report{ev: &Event{Kind: kind, Subject: subject, Detail: detail, Data: data}}
+	c.reports <- report{ev: &Event{Kind: kind, Subject: subject, Detail: detail, Data: data}, at: c.Now()}
 }
 
 // ---- controller side ----
 
 func (c *Ctl) addEvent(e *Event) *Event {
+	return c.addEventAt(e, c.Now())
+}
+
+func (c *Ctl) addEventAt(e *Event, at time.Duration) *Event {
 	e.Seq = len(c.Events)
 	e.Batch = c.batch
-	e.At = c.Now()
+	e.At = at
 	c.Events = append(c.Events, *e)
 	ep := &c.Events[len(c.Events)-1]
 	if c.onEvent != nil {
@@ -162,7 +167,7 @@ func (c *Ctl) drain() int {
 			switch {
 			case r.park != nil:
 				p := r.park
-				ev := c.addEvent(&Event{Kind: "park:" + p.Kind, Subject: p.Key, Data: p.Data})
+				ev := c.addEventAt(&Event{Kind: "park:" + p.Kind, Subject: p.Key, Data: p.Data}, r.at)
 				p.Seq = ev.Seq
 				p.At = ev.At
 				newParks = append(newParks, p)
@@ -183,9 +188,9 @@ func (c *Ctl) drain() int {
 						}
 					}
 				}
-				c.addEvent(&Event{Kind: "retract:" + r.retract.Kind, Subject: r.retract.Key, Data: r.retract.Data})
+				c.addEventAt(&Event{Kind: "retract:" + r.retract.Kind, Subject: r.retract.Key, Data: r.retract.Data}, r.at)
 			case r.ev != nil:
-				c.addEvent(r.ev)
+				c.addEventAt(r.ev, r.at)
 			}
 		default:
 			if len(newParks) > 0 {
